@@ -58,7 +58,7 @@ func genC05(seed uint64, i int, tier string) *Scenario {
 	if i%8 == 7 {
 		return genC05KeepGoing(r)
 	}
-	style := pick(r, []string{StoreMixed, StoreInts, StoreNum, StoreText, StoreInts, StoreCollide, StoreUnicode})
+	style := pick(r, []string{StoreMixed, StoreInts, StoreNum, StoreText, StoreInts, StoreCollide, StoreUnicode, StoreBytes})
 	g := newGen(r, style)
 	// alias use is the point of this property
 	g.safeDiv = true // which rows are evaluated legitimately differs between Q and Q' (scan narrowing); keep evaluation total
